@@ -1054,11 +1054,14 @@ class DigitalWaveform(Generic[TDigitalState]):
                 self._data_1d.resize(value, refcheck=False)
                 self._data = self._data_1d.reshape(len(self._data_1d), 1)
             else:
-                if not self._data.flags.c_contiguous:
+                data = self._data
+                if not data.flags.c_contiguous:
                     # ndarray.resize() treats the buffer as C-ordered, which would scramble the
                     # samples of a Fortran-ordered or strided array.
-                    self._data = np.ascontiguousarray(self._data)
-                self._data.resize((value, self.signal_count), refcheck=False)
+                    data = np.ascontiguousarray(data)
+                # Keep the current buffer if the resize fails (for example, with MemoryError).
+                data.resize((value, self.signal_count), refcheck=False)
+                self._data = data
 
     @property
     def dtype(self) -> np.dtype[TDigitalState]:
